@@ -264,6 +264,18 @@ func TestProp(t *testing.T) {
 			t.Fatalf("VIOLATION %s", vs[0])
 		})
 	}
+	if spec.Custom == nil && spec.Run == nil && os.Getenv("VERIF_NOSWEEP") == "" {
+		shard, _ := strconv.Atoi(os.Getenv("VERIF_SHARD"))
+		nsh, _ := strconv.Atoi(os.Getenv("VERIF_NSHARDS"))
+		if nsh < 1 {
+			nsh = 1
+		}
+		sweepScenarios(spec, st, shard, nsh, thorough, func(c *Case, vs []Violation, r *Result) {
+			writeViolation(st.out, c, vs, r.Hist)
+			st.write()
+			t.Fatalf("VIOLATION %s", vs[0])
+		})
+	}
 	if spec.Custom != nil {
 		rapid.Check(t, func(rt *rapid.T) { spec.Custom(rt, thorough, st) })
 		return
